@@ -651,8 +651,14 @@ func (m *matcher) stmtLoose(a, b ast.Stmt) bool {
 // embedsInOrder: every listed reference statement occurs in the fork body, in
 // the same relative order, under one consistent identifier mapping.
 func embedsInOrder(forkBody *ast.BlockStmt, refStmts []ast.Stmt) (bool, string) {
-	var fl []ast.Stmt
-	flattenStmts(forkBody.List, &fl)
+	var fl0, fl []ast.Stmt
+	flattenStmts(forkBody.List, &fl0)
+	for _, st := range fl0 {
+		fl = append(fl, st)
+		if lt := lookThrough(st); lt != nil {
+			fl = append(fl, lt) // the same assignment with a one-expression helper looked through
+		}
+	}
 	m := newMatcher()
 	pos := 0
 	for i, rs := range refStmts {
